@@ -411,9 +411,14 @@ class World(object):
         if initial_data is not SENTINEL:
             if is_pulled:
                 assert src_sim.outputs is not None
-                src_sim.outputs.setdefault(
-                    -int(time_shifted), {}
-                ).setdefault(src.eid, {})[src_attr] = initial_data
+                # The initial data is valid from -time_shifted until the
+                # first real output, so it has to be in every cache entry
+                # in between (other connections with a smaller shift
+                # create entries there).
+                for time in range(-int(time_shifted), 0) or [0]:
+                    src_sim.outputs.setdefault(
+                        time, {}
+                    ).setdefault(src.eid, {})[src_attr] = initial_data
             else:
                 dest_sim.persistent_inputs.setdefault(
                     dest.eid, {}
